@@ -70,7 +70,7 @@ func (p poolParams) effLimits() (int, int) {
 	return mc, mi
 }
 
-var poolLimits = [][2]int{{0, 0}, {-1, 5}, {1, 1}, {2, 5}, {3, 1}, {4, 2}, {8, 8}, {2, 2}, {5, 3}}
+var poolLimits = [][2]int{{0, 0}, {-1, 5}, {1, 1}, {2, 5}, {3, 1}, {4, 2}, {8, 8}, {2, 2}, {5, 3}, {0, 3}, {0, 1}, {4, 0}, {3, -2}}
 
 func genPool(seed int64, idx int, class string) poolParams {
 	rng := rand.New(rand.NewSource(seed*9176 + int64(idx)*131 + int64(len(class))))
@@ -200,6 +200,13 @@ func (r *poolRun) doCall(addrIdx int, form string, delay time.Duration, counter 
 	case "Ping":
 		c.kind = "ping"
 		c.err = tc.Ping()
+	case "BadStream":
+		// a stream the server refuses (unknown method): afterwards the
+		// connection is as unused as before
+		c.kind = "badstream"
+		if st, err := tc.NewStream("Nope.S"); err == nil {
+			st.Close()
+		}
 	case "Stream":
 		c.kind = "stream"
 		st, err := tc.NewStream("T0.SB")
@@ -306,7 +313,7 @@ func runPool(p poolParams) *scen.Outcome {
 	var running int32
 	forms := []string{rig.FormCall, rig.FormGo, rig.FormRoundTrip, rig.FormCtx, "Ping"}
 	if p.streams {
-		forms = append(forms, "Stream", "Stream")
+		forms = append(forms, "Stream", "Stream", "BadStream")
 	}
 	pooledAtKill := map[int]int{}
 	var killTimes []time.Duration
